@@ -13,11 +13,11 @@ from . import tlc
 CID = "0123456789abcdef"
 
 
-def _cfg(spec, kill, die, props=True, colls='{"c1", "c2"}', workers='{"w1", "w2"}', bound=False):
+def _cfg(spec, kill, die, props=True, colls='{"c1", "c2"}', workers='{"w1", "w2"}', bound=False, post=False, orphan=False):
     B = lambda b: "TRUE" if b else "FALSE"
-    return ("SPECIFICATION %s\nCONSTANTS\n  Colls = %s\n  Workers = %s\n  WithKill = %s\n  WithDie = %s\n"
-            "INVARIANTS TypeOK RenderOkOnlyAfterZipOk ZipOkIsTrue OneRunner NoStarvationWithoutFaults\n%s"
-            "%sCHECK_DEADLOCK FALSE\n" % (spec, colls, workers, B(kill), B(die),
+    return ("SPECIFICATION %s\nCONSTANTS\n  Colls = %s\n  Workers = %s\n  WithKill = %s\n  WithDie = %s\n  WithPost = %s\n"
+            "INVARIANTS TypeOK RenderOkOnlyAfterZipOk ZipOkIsTrue OneRunner NoStarvationWithoutFaults PostOnlyTimesOut%s\n%s"
+            "%sCHECK_DEADLOCK FALSE\n" % (spec, colls, workers, B(kill), B(die), B(post), " NoOrphanChannel" if orphan else "",
                                           "PROPERTY EventuallyDecided\n" if props else "",
                                           "CONSTRAINT SerialBound\n" if bound else ""))
 
@@ -51,6 +51,18 @@ def model_check(ctx, quick):
         ctx.machinery("RenderFlow.tla: the starvation hazard (kill, no timeouts) should violate EventuallyDecided, got %s %s"
                       % (r.kind, r.name))
     out["starvation_hazard_found"] = [r.kind, r.name]
+    # do_zip_post: its job goes to a channel no worker serves - safety with the post requests in,
+    # and the hazard run that must find the orphan
+    r = tlc.run(ctx, "RenderFlow", _cfg("Spec", False, False, props=False, colls='{"c1"}', post=True), name="rf_post", timeout=900)
+    if not r.ok:
+        ctx.machinery("RenderFlow.tla (post requests) violates %s %s\n%s" % (r.kind, r.name, r.out[-1500:]))
+    out["with_post_requests"] = r.summary()
+    states += r.distinct
+    trans += r.generated
+    r = tlc.run(ctx, "RenderFlow", _cfg("Spec", False, False, props=False, colls='{"c1"}', post=True, orphan=True), name="rf_orphan", timeout=900)
+    if not (r.kind == "invariant" and r.name == "NoOrphanChannel"):
+        ctx.machinery("RenderFlow.tla: the orphan-channel hazard (post) should violate NoOrphanChannel, got %s %s" % (r.kind, r.name))
+    out["orphan_channel_hazard_found"] = [r.kind, r.name]
     return out, states, trans
 
 
@@ -145,6 +157,11 @@ def _render_events(calls, w, c):
     return ev
 
 
+def nslave_commands():
+    import mwlib.core.nslave as nslave
+    return nslave.Commands
+
+
 def record_scenarios(ctx):
     """Returns (traces, raw) - one trace per scenario of the real nserve / slave / nslave code."""
     from mwlib.core import nserve
@@ -194,6 +211,21 @@ def record_scenarios(ctx):
             else:
                 tr += _render_events(rd_calls, "w2", "c1")
             traces.append(tr)
+    # do_zip_post: what it adds, and which channels the real worker class would pull from
+    q.clear()
+    resp2 = app.do_zip_post(CID, {"metabook": json.dumps({"type": "collection", "title": "T", "items": []}),
+                                  "base_url": "http://wiki.example.org/w/", "post_url": "http://pod.example.org/upload"}, False)
+    from qs import slave
+
+    class WH2(slave.Worker, nslave_commands()):
+        pass
+
+    served = sorted(x[len("rpc_"):] for x in dir(WH2) if x.startswith("rpc_"))
+    po = []
+    for ch, jid in q:
+        po.append({"op": "reqpo", "c": "c1"} if (ch == "post" and jid is None) else {"op": "unexpected-post-request:%s:%s" % (ch, jid), "c": "c1"})
+    raw.append({"do_zip_post": list(q), "response": resp2, "served_channels": served})
+    traces.append(po + [{"op": "channels", "served": served}, {"op": "expire", "c": "c1", "k": "po"}])
     # makezip worker when the zip is already there: no mw-zip run, still a success
     z = _worker_run(scratch, "mk", "ok", True, zip_exists=True)
     raw.append({"zip_exists": True, "makezip_worker": z})
@@ -206,8 +238,8 @@ def validate(ctx, traces):
     path = os.path.join(ctx.scratch, "rf-traces.json")
     with open(path, "w") as f:
         json.dump(traces, f)
-    cfg = ("SPECIFICATION TraceSpec\nCONSTANTS\n  Colls = {\"c1\"}\n  Workers = {\"w1\", \"w2\"}\n  WithKill = TRUE\n  WithDie = TRUE\n"
-           "INVARIANTS TypeOK RenderOkOnlyAfterZipOk ZipOkIsTrue\nCHECK_DEADLOCK TRUE\n")
+    cfg = ("SPECIFICATION TraceSpec\nCONSTANTS\n  Colls = {\"c1\"}\n  Workers = {\"w1\", \"w2\"}\n  WithKill = TRUE\n  WithDie = TRUE\n  WithPost = TRUE\n"
+           "INVARIANTS TypeOK RenderOkOnlyAfterZipOk ZipOkIsTrue PostOnlyTimesOut\nCHECK_DEADLOCK TRUE\n")
     res = tlc.run(ctx, "RenderFlowTrace", cfg, name="rf_trace", env={"TRACE_FILE": path}, timeout=600)
     rejected = None
     if not res.ok:
